@@ -109,6 +109,11 @@ def cases(tier, seed):
                      "mygate %s[1], %s[0];\nreset %s[0];\nCX %s[0], %s[1];" % (qn, qn, qn, qn, qn)):
             out.append(dict(src="OPENQASM 2.0;\nqreg %s[2];\ncreg %s[2];\ngate mygate a, b { U(0.1, 0.2, 0.3) a; CX a, b; U(0, 0, 0.7) b; }\n%s\n" % (qn, cn, body),
                             family="no-include"))
+    # many registers of each kind (every declaration line is rewritten, however many there are)
+    for nq, nc in ((9, 2), (2, 9), (11, 10), (17, 17)):
+        decl = "".join("qreg r%d[%d];\n" % (i, 1 + i % 3) for i in range(nq)) + "".join("creg m%d[%d];\n" % (i, 1 + i % 2) for i in range(nc))
+        body = "".join("h r%d[0];\n" % i for i in range(nq)) + "cx r0[0], r%d[0];\n" % (nq - 1) + "".join("measure r%d[0] -> m%d[0];\n" % (i % nq, i) for i in range(nc))
+        out.append(dict(src=H2 + decl + body, family="many-registers"))
     # the short version header is a version-2 program as well
     for k, c in enumerate(list(out)):
         if k % 4 == 0:
